@@ -310,7 +310,7 @@ Definition df_sparse (rt : rtable) : list (list (option Z)) :=
                               | CSC => find_idx i (nth j (r_segs rt) [])
                               end) (seq 0 (r_nsamp rt))) (seq 0 (r_nobs rt)).
 
-(* ================================================================== metadata_to_dataframe, table.py:4451-4534
+(* ================================================================== metadata_to_dataframe, table.py:4451-4532
    a metadata entry is  L [L [key; value]; ...]  in dict order; value trees are the harness's tagged
    values  L [I tag; payload]:  tag 5 = list / tuple (payload: the items), 0 = None *)
 Definition kv_key (kv : Tree) : Tree := tnth kv 0.
@@ -319,42 +319,45 @@ Definition is_seq (v : Tree) : bool := Z.eqb (tZ (tnth v 0)) 5.
 Definition seq_items (v : Tree) : list Tree := tL (tnth v 1).
 Definition md_nan : Tree := L [I 0%Z].
 
-(* column labels of one entry: key, or key_0, key_1, ... for a list value *)
-Definition entry_columns (e : Tree) : list Tree :=
-  flat_map (fun kv => if is_seq (kv_val kv)
-                      then map (fun i => L [kv_key kv; I (Z.of_nat i)]) (seq 0 (length (seq_items (kv_val kv))))
-                      else [L [kv_key kv]]) (tL e).
-(* the first entry that has more columns than every entry before it: its labels, keys and list flags
-   decide the layout (mcols, mkeys, mexpand) *)
-Definition widest (md : list Tree) : Tree :=
-  fold_left (fun best e => if Nat.ltb (length (entry_columns best)) (length (entry_columns e)) then e else best)
-            md (L []).
+(* width[key] = max(width.get(key, 0), n), keys kept in order of first appearance *)
+Fixpoint wset (k : Tree) (n : nat) (w : list (Tree * nat)) : list (Tree * nat) :=
+  match w with
+  | [] => [(k, n)]
+  | (k', n') :: t => if tree_eqb k k' then (k', Nat.max n' n) :: t else (k', n') :: wset k n t
+  end.
+(* a list value asks for as many columns as it has items, anything else for none of its own *)
+Definition kv_width (kv : Tree) : nat :=
+  if is_seq (kv_val kv) then length (seq_items (kv_val kv)) else 0.
+Definition widths (md : list Tree) : list (Tree * nat) :=
+  fold_left (fun w e => fold_left (fun w kv => wset (kv_key kv) (kv_width kv) w) (tL e) w) md [].
+(* column labels: key when no id holds a (non-empty) list under it, else key_0 .. key_(n-1) *)
+Definition key_columns (kn : Tree * nat) : list Tree :=
+  match snd kn with
+  | O => [L [fst kn]]
+  | n => map (fun i => L [fst kn; I (Z.of_nat i)]) (seq 0 n)
+  end.
 Fixpoint lookup_kv (k : Tree) (kvs : list Tree) : option Tree :=
   match kvs with
   | [] => None
   | kv :: t => if tree_eqb k (kv_key kv) then Some (kv_val kv) else lookup_kv k t
   end.
-(* m[key] on the defaultdict: None for a missing key *)
+(* m.get(key): None for a missing key *)
 Definition md_get (k : Tree) (e : Tree) : Tree :=
   match lookup_kv k (tL e) with Some v => v | None => md_nan end.
-(* one row: the keys of the widest entry in its order; a value is spread over several cells when the
-   widest entry holds a list under that key and this value is a list too (as many cells as THIS list has) *)
-Definition row_cells (wide e : Tree) : list Tree :=
-  flat_map (fun kv => let v := md_get (kv_key kv) e in
-                      if is_seq (kv_val kv) && is_seq v then seq_items v else [v]) (tL wide).
-Definition pad_row (n : nat) (r : list Tree) : list Tree := r ++ repeat md_nan (n - length r).
-(* pandas.DataFrame(rows, index=ids, columns=mcols): shorter rows are padded with missing values,
-   a longest row that is not as long as the label list is refused (ValueError) *)
+(* the cells one key fills in one row: exactly as many as the key has columns *)
+Definition key_cells (e : Tree) (kn : Tree * nat) : list Tree :=
+  let v := md_get (fst kn) e in
+  match snd kn with
+  | O => [v]
+  | n => let items := if is_seq v then seq_items v else if tree_eqb v md_nan then [] else [v] in
+         items ++ repeat md_nan (n - length items)
+  end.
 Definition md_df (ids : list Z) (md : option (list Tree)) : result (list Tree * list (Z * list Tree)) :=
   match md with
   | None => RErr E_KEY
   | Some l =>
-      let w := widest l in
-      let mcols := entry_columns w in
-      let rows := map (row_cells w) l in
-      if Nat.eqb (fold_right Nat.max 0 (map (@length Tree) rows)) (length mcols)
-      then ROk (mcols, combine ids (map (pad_row (length mcols)) rows))
-      else RErr E_VALUE
+      let w := widths l in
+      ROk (flat_map key_columns w, combine ids (map (fun e => flat_map (key_cells e) w) l))
   end.
 Definition r_md_df (a : axis) (rt : rtable) : result (list Tree * list (Z * list Tree)) :=
   match a with Obs => md_df (r_oids rt) (r_omd rt) | Samp => md_df (r_sids rt) (r_smd rt) end.
